@@ -6,7 +6,7 @@ from rules import (stores_to, absent_from, guarded, calls_to, field_writes, who_
                    full_range, loops_over, every_iteration_passes, basename, error_discipline,
                    origins, reject_if, skip_conditions_exact, is_enum, is_field, is_var,
                    reached_only_via, canon_before_intern, loop_blocks)
-from props.scan_common import (mri_vars, mentions_mri, OUTDIRTY, ts_role, ts_comparisons, check_cc, effect_returns,
+from props.scan_common import (rec_vars, is_rec_var, mri_vars, mentions_mri, OUTDIRTY, ts_role, ts_comparisons, check_cc, effect_returns,
                                effect_assigns, true_succ)
 
 
@@ -357,6 +357,7 @@ def run(ctx):
       'run); an output mtime is recorded only for restat/generator rules or when the start time is '
       'unknown; the start time is taken (lock file written, then stat) before the command starts')
     fc = prog.fn('Builder::FinishCommand')
+    is_rec = is_rec_var(fc)
     rcs = [e for e in fc.calls('BuildLog::RecordCommand')]
     ctx.check('C01.V1', len(rcs) == 1, fc.name, 'RecordCommand:sites', fc.loc, 'one RecordCommand site')
     for e in rcs:
@@ -376,14 +377,14 @@ def run(ctx):
                   'RecordCommand:mtime-origins', fc.where(e),
                   'recorded mtime originates from {0, command_start_time_, Stat(output)}: %s' % sorted(kinds))
     for e in fc.events('asg'):
-        if is_var('record_mtime')(e['l']) and ts_role(fc, e.get('r')) == 'NOW':
+        if is_rec(e['l']) and ts_role(fc, e.get('r')) == 'NOW':
             def edge_ok(b, i, s):
                 ef = fc.edge_fact(b, i)
                 if not ef:
                     return True
                 k, p, a = ef
                 if p is True and (is_var('restat')(a) or is_var('generator')(a) or
-                                  (mentions_var(a, 'record_mtime') and '== 0' in k)):
+                                  ((any(mentions_var(a, v_) for v_ in rec_vars(fc)) or mentions_field(a, 'Edge::command_start_time_')) and '== 0' in k)):
                     return False
                 return True
             r = fc.find_path(None, lambda x: x is e, from_succ=fc.entry, edge_ok=edge_ok, sensitive=False)
@@ -395,17 +396,17 @@ def run(ctx):
     # only in a dry run or through the store of command_start_time_
     nz = 0
     for e in fc.stores():
-        if is_var('record_mtime')(e['l']) and e['op'] == '=' and const_value(e.get('r')) == 0:
+        if is_rec(e['l']) and e['op'] == '=' and const_value(e.get('r')) == 0:
             nz += 1
             r = fc.find_path(e, lambda x: x['k'] == 'call' and x.get('name') == 'BuildLog::RecordCommand',
-                             is_blocker=lambda x: x['k'] == 'asg' and is_var('record_mtime')(x['l']) and x['op'] == '=' and
+                             is_blocker=lambda x: x['k'] == 'asg' and is_rec(x['l']) and x['op'] == '=' and
                              mentions_field(x.get('r'), 'Edge::command_start_time_'),
                              edge_ok=lambda b, i, s: not any(pol is True and mentions_field(a, 'BuildConfig::dry_run') for k, pol, a in fc.edge_facts(b, i)))
             ctx.check('C01.V1', r is None, fc.name, 'record_mtime:floor-reset', fc.where(e),
                       'record_mtime = 0 is recorded only in a dry run (otherwise the command start time is stored first)',
                       witness=None if r is None else {'blocks': r[0]})
     ctx.check('C01.V1', nz >= 1, fc.name, 'record_mtime:init', fc.loc, 'record_mtime starts at 0 (%d zero stores)' % nz)
-    check_cc(ctx, 'C01.V1', fc, ('REC', 'NOW'), '<', effect_assigns('record_mtime', lambda r: True),
+    check_cc(ctx, 'C01.V1', fc, ('REC', 'NOW'), '<', effect_assigns('record_mtime', lambda r: True, also=rec_vars),
              'the recorded mtime is the newest output mtime (max-update)', 'CC5:record-max')
     se = prog.fn('Builder::StartEdge')
     w = [e for f, e, kind, rhs in field_writes(prog, 'Edge::command_start_time_') if not e.get('init')]
